@@ -7,6 +7,7 @@ the window, with folded from predicted and unfolded from model pKa values.
 """
 import io
 import math
+import os
 
 from hypothesis import strategies as st
 
@@ -215,7 +216,39 @@ def history_case(case):
     return v, {"labels": ["history"], "nontrivial": True}
 
 
+def conformation_file_case(case):
+    """propka.output.write_pka for every conformation of a multi-conformation input: table and pI line must belong to
+    the conformation that is written."""
+    import propka.output
+    text = case["pdb"]
+    rec = observe.run(text, [], name="a", keep_mol=True)
+    if rec["error"]:
+        return [], {"labels": ["error:" + rec["error"]["type"]]}
+    mol = rec.pop("_mol")
+    v = []
+    differ = False
+    for cname in rec["conf_names"] + ["AVR"]:
+        fn = "conf_%s.pka" % cname
+        try:
+            propka.output.write_pka(mol, mol.version.parameters, filename=fn, conformation=cname, verbose=False)
+        except Exception as e:
+            v.append({"clause": "write-conformation", "detail": "%s: %s: %s" % (cname, type(e).__name__, e)})
+            continue
+        txt = open(fn).read().split("\n", 1)[1]
+        os.remove(fn)
+        sub = {"pka_text": txt, "confs": {"AVR": rec["confs"][cname]}}
+        tv = text_violations(sub, (0.0, 14.0, 0.1))
+        for x in tv:
+            x["detail"] = "file written for conformation %s: %s" % (cname, x["detail"])
+        v += tv
+        if sites_of(rec["confs"][cname]) != sites_of(rec["confs"]["AVR"]):
+            differ = True
+    return v, {"labels": ["conformation-files"], "nontrivial": differ}
+
+
 def replay(case):
+    if case.get("kind") == "conformation-files":
+        return conformation_file_case(case)[0]
     if case.get("kind") == "unit":
         return unit_case(case)[0]
     if case.get("kind") == "history":
@@ -224,8 +257,8 @@ def replay(case):
 
 
 def grids_strategy():
-    step = st.sampled_from([0.1, 0.1, 0.05, 0.25, 0.3, 0.7, 1.0, 0.01 * 7, 2.0, 0.5])
-    mn = st.sampled_from([0.0, 0.0, -2.0, 1.0, 3.5, 6.9])
+    step = st.sampled_from([0.1, 0.1, 0.05, 0.25, 0.3, 0.7, 1.0, 0.01 * 7, 2.0, 0.5, 0.125, 1.5, 0.15])
+    mn = st.sampled_from([0.0, 0.0, -2.0, 1.0, 3.5, 6.9, 0.05, 0.005])
     span = st.sampled_from([14.0, 7.0, 1.0, 3.3, 10.0, 20.0])
     return st.tuples(mn, span, step).map(lambda t: (t[0], t[0] + t[1], t[2]))
 
@@ -305,6 +338,18 @@ def run_shard(ctx):
         ctx.account(case, v, info)
 
     ctx.hypothesis_stage("profiles-and-pI", cases(), body, 4000 if quick else 40000)
+
+    from vlib import genconf
+
+    def conf_body(t):
+        text, info = t
+        case = {"kind": "conformation-files", "pdb": text}
+        v, ci = conformation_file_case(case)
+        ci["sample"] = {"structure": info["structure"].summary(), "conformations": info["labels"]}
+        ctx.account(case, v, ci)
+
+    ctx.hypothesis_stage("file-per-conformation", genconf.multi_conformation(max_res=14, kinds=("models", "altloc")),
+                         conf_body, 400 if quick else 5000)
 
     def hist_body(s):
         case = {"kind": "history", "pdb": s.text, "grid": [0.0, 14.0, 0.5]}
